@@ -120,6 +120,22 @@ type wrapStore struct {
 	pausing  *writer
 	inj      []int
 	moves    []move
+	// one-shot: called with what Volume(id) returned, before the caller gets it
+	volumeHook func(storage.Volume)
+	// one-shot: closed when StoreSector's callback is entered (slot committed, data not yet written)
+	inCallback chan struct{}
+}
+
+func (ws *wrapStore) Volume(id int64) (storage.Volume, error) {
+	vol, err := ws.Store.Volume(id)
+	ws.mu.Lock()
+	h := ws.volumeHook
+	ws.volumeHook = nil
+	ws.mu.Unlock()
+	if h != nil && err == nil {
+		h(vol)
+	}
+	return vol, err
 }
 
 func (ws *wrapStore) StoreSector(root types.Hash256, fn storage.StoreFunc) error {
@@ -131,6 +147,10 @@ func (ws *wrapStore) StoreSector(root types.Hash256, fn storage.StoreFunc) error
 		ws.failNext = false
 		p := ws.pausing
 		ws.pausing = nil
+		if ws.inCallback != nil {
+			close(ws.inCallback)
+			ws.inCallback = nil
+		}
 		ws.mu.Unlock()
 		if p != nil {
 			p.loc = &l
@@ -265,6 +285,8 @@ type world struct {
 	writers map[int]*writer
 	dirty   map[[2]uint64]bool
 	files   map[int64]*volFile
+	parked  *parkedResize
+	lastRoot int // root of the last upload a syncrace made (replay files may refer to it as L)
 	volPath map[int64]string
 	nvol    int
 	metaInt map[types.Hash256]int
@@ -332,7 +354,20 @@ func (w *world) unsynced() map[[2]uint64]bool {
 	return out
 }
 
+// a ResizeVolume call stopped right after it read the volume's size
+type parkedResize struct {
+	v       int64
+	n       uint64
+	release chan struct{}
+	done    chan error
+}
+
 func (w *world) shutdown() {
+	if w.parked != nil {
+		close(w.parked.release)
+		<-w.parked.done
+		w.parked = nil
+	}
 	for _, wr := range w.writers {
 		wr.release <- errInjected
 		<-wr.done
@@ -466,11 +501,17 @@ func (w *world) obs() string {
 	return sb.String()
 }
 
+var lastLine = time.Now()
+
 func (w *world) line(op, res string) {
 	if res != "" {
 		res += " "
 	}
+	if d := time.Since(lastLine); d > 400*time.Millisecond && os.Getenv("VH_X_SLOW") != "" {
+		w.tr.Line(fmt.Sprintf("#SLOW %s %dms", strings.SplitN(op, " ", 2)[0], d.Milliseconds()), "")
+	}
 	w.tr.Line(op, res+w.obs())
+	lastLine = time.Now()
 }
 
 func classErr(err error) string {
@@ -948,6 +989,76 @@ func (w *world) doVmRemove(v int64, force bool, inj []int) {
 	w.line(fmt.Sprintf("vmremove v=%d force=%d inj=%s", v, b2i(force), vhlib.FmtList(inj)), fmt.Sprintf("res=%s moves=%s", res, fmtMoves(w.ws.moves)))
 }
 
+// doResizePark starts ResizeVolume(v, n) and stops it where the current code has read the volume's
+// size (vm.vs.Volume) but not yet checked / set the resizing status. If the size is read while the
+// manager's mutex is held (i.e. under the status guard) there is nothing to interleave: the resize
+// simply runs.
+func (w *world) doResizePark(v int64, n uint64) {
+	if w.parked != nil || len(w.writers) > 0 {
+		return
+	}
+	pr := &parkedResize{v: v, n: n, release: make(chan struct{}), done: make(chan error, 1)}
+	reached := make(chan uint64, 1)
+	w.ws.mu.Lock()
+	w.ws.inj, w.ws.moves = nil, nil
+	w.ws.volumeHook = func(vol storage.Volume) {
+		if w.vm.VerifMuLocked() {
+			return
+		}
+		reached <- vol.TotalSectors
+		<-pr.release
+	}
+	w.ws.mu.Unlock()
+	go func() {
+		var err error
+		if p, msg := vhlib.Try(func() {
+			result := make(chan error, 1)
+			if err = w.vm.ResizeVolume(context.Background(), v, n, result); err == nil {
+				err = <-result
+			}
+		}); p {
+			err = errors.New("panic:" + msg)
+		}
+		pr.done <- err
+	}()
+	select {
+	case stale := <-reached:
+		w.parked = pr
+		w.line(fmt.Sprintf("resizepark v=%d n=%d", v, n), fmt.Sprintf("res=ok parked=1 stale=%d", stale))
+	case err := <-pr.done:
+		w.ws.mu.Lock()
+		w.ws.volumeHook = nil
+		w.ws.mu.Unlock()
+		w.cleanAfterMoves()
+		res := classErr(err)
+		if err != nil && strings.HasPrefix(err.Error(), "panic:") {
+			res = err.Error()
+		}
+		w.line(fmt.Sprintf("resizepark v=%d n=%d", v, n), fmt.Sprintf("res=%s parked=0 moves=%s", res, fmtMoves(w.ws.moves)))
+	}
+}
+
+// doResizeGo lets the parked ResizeVolume continue with the size it read back then.
+func (w *world) doResizeGo() {
+	pr := w.parked
+	if pr == nil {
+		w.line("resizego", "res=none moves=[]")
+		return
+	}
+	w.parked = nil
+	w.ws.mu.Lock()
+	w.ws.inj, w.ws.moves = nil, nil
+	w.ws.mu.Unlock()
+	close(pr.release)
+	err := <-pr.done
+	w.cleanAfterMoves()
+	res := classErr(err)
+	if err != nil && strings.HasPrefix(err.Error(), "panic:") {
+		res = err.Error()
+	}
+	w.line("resizego", fmt.Sprintf("res=%s moves=%s", res, fmtMoves(w.ws.moves)))
+}
+
 func (w *world) doVmSetRO(v int64, b bool) {
 	res := try(func() error { return w.vm.SetReadOnly(v, b) })
 	w.line(fmt.Sprintf("vmsetro v=%d b=%d", v, b2i(b)), "res="+res)
@@ -1143,6 +1254,9 @@ func (w *world) doSyncRace(v int64, r int, tries int) {
 			var loc *storage.SectorLocation
 			lastRes, loc = w.write(root, p, false)
 			kinds, locs = append(kinds, "n"), append(locs, fmtLoc(loc))
+			if lastRes == "placed" {
+				w.lastRoot = root
+			}
 			continue
 		}
 		// B: its StoreSector commits the slot, then blocks on the volume lock S holds
@@ -1150,12 +1264,23 @@ func (w *world) doSyncRace(v int64, r int, tries int) {
 		f.mu.Lock()
 		f.afterWrite = func() { close(wrote) }
 		f.mu.Unlock()
+		inCb := make(chan struct{})
 		w.ws.mu.Lock()
 		w.ws.lastLoc = nil
+		w.ws.inCallback = inCb
 		w.ws.mu.Unlock()
 		doneB := make(chan error, 1)
 		go func() { doneB <- w.vm.Write(realRoot(root), p) }()
-		time.Sleep(5 * time.Millisecond)
+		// wait until B is inside StoreSector's callback (then it looks the volume up under the
+		// manager's mutex and blocks on the volume lock that S holds)
+		select {
+		case <-inCb:
+			time.Sleep(2 * time.Millisecond)
+		case <-time.After(2 * time.Second):
+		}
+		w.ws.mu.Lock()
+		w.ws.inCallback = nil
+		w.ws.mu.Unlock()
 		// hold the manager's mutex so that S stops where it is about to clear the flag
 		w.vm.VerifLockMu()
 		close(release)
@@ -1206,6 +1331,9 @@ func (w *world) doSyncRace(v int64, r int, tries int) {
 			lost, kind = 1, "r"
 		}
 		kinds, locs = append(kinds, kind), append(locs, fmtLoc(loc))
+		if lastRes == "placed" {
+			w.lastRoot = root
+		}
 	}
 	w.tr.Count(fmt.Sprintf("syncrace:lost%d", lost))
 	w.line(fmt.Sprintf("syncrace v=%d r=%d tries=%d", v, r, tries),
